@@ -7,6 +7,7 @@ import re
 import zoneinfo
 
 import common as C
+import srctie
 
 US = 10**6
 MIN = 60 * US
@@ -668,6 +669,11 @@ def explore(ctx, rep, cases, label, judge=True):
 def run(ctx):
     rep = C.Report(ctx, META)
     rep.add_obligations(C.proof_obligations("C13"))
+    # source tie: get_task_delay is re-translated from the repository's source text and the committed proofs
+    # (generated cron branch = Cron.cron_delay; C13 over the generated definition) are re-checked against it
+    src_obs, src_info = srctie.obligations(ctx, "sched_run", "C13")
+    rep.add_obligations(src_obs)
+    rep.extra["source_tie"] = src_info
     corpus = [c for _, c in C.load_corpus("C13")]
     if corpus:
         explore(ctx, rep, corpus, "corpus")
